@@ -1,7 +1,7 @@
 """Property -> rule set, with the clause split that the manifest and the evidence repeat."""
 from __future__ import annotations
 
-from .rules import tables, config, luts, state, ownership
+from .rules import tables, config, luts, state, ownership, contracts
 
 RULES = {
     'H1': tables.rule_H1,
@@ -15,6 +15,9 @@ RULES = {
     'A1': ownership.rule_A1, 'A3': ownership.rule_A3, 'A4': ownership.rule_A4, 'A9': ownership.rule_A9,
     'A10': ownership.rule_A10,
     'A2': ownership.rule_A2, 'A5': ownership.rule_A5, 'A6': ownership.rule_A6, 'A7': ownership.rule_A7, 'A8': ownership.rule_A8,
+    'L': contracts.rule_L, 'K': contracts.rule_K, 'E1': contracts.rule_E1, 'E2': contracts.rule_E2, 'E3': contracts.rule_E3,
+    'E6': contracts.rule_E6, 'E7': contracts.rule_E7, 'D2': contracts.rule_D2, 'E9': contracts.rule_E9, 'E4': contracts.rule_E4,
+    'E10': contracts.rule_E10,
     'H5a': luts.rule_H5a, 'H5b': luts.rule_H5b, 'H5c': luts.rule_H5c,
 }
 
